@@ -843,6 +843,7 @@ void simomp_reset(void)
         g_fib[0] = &g_root; g_nfib = 1; g_cur = &g_root;
     }
     g_root.ctx = &g_root_ctx;
+    g_root.stall_until = 0; g_root.state = F_RUN; g_root.saved_errno = 0;   /* nothing survives from the previous plan */
     g_next_fiber_id = 1; g_next_task_id = 1;
     g_srng.s = W.sched_seed ^ 0xA5A5A5A55A5A5A5AULL;
     g_steps = 0; g_accesses = 0; g_trace_n = 0; g_dec_pos = 0; g_preempt_pos = 0; g_preempt_trace_n = 0;
